@@ -19,6 +19,9 @@ def dispatch(prop, tier, replay):
     if prop in ("C04", "C09"):
         from . import check_image
         return check_image.check(prop, tier).finish()
+    if prop == "C18":
+        from . import check_c18
+        return check_c18.check(tier).finish()
     if prop == "C19":
         from . import check_c19
         return check_c19.check(tier).finish()
